@@ -9,6 +9,12 @@
 #define MAXI 65536
 static void *addr[MAXI];          /* first address seen per index (shared between threads: CAS) */
 static int visited[MAXI]; static int nvis; static int vlist[4096];
+/* failpoint: the next allocation made while armed fails (armed by the sequential stage around one library call) */
+static int fail_alloc_armed; static long n_enomem;
+void *__real_malloc(size_t n); void *__real_calloc(size_t a, size_t b); void *__real_realloc(void *p, size_t n);
+void *__wrap_malloc(size_t n) { if (fail_alloc_armed) { fail_alloc_armed = 0; errno = ENOMEM; return NULL; } return __real_malloc(n); }
+void *__wrap_calloc(size_t a, size_t b) { if (fail_alloc_armed) { fail_alloc_armed = 0; errno = ENOMEM; return NULL; } return __real_calloc(a, b); }
+void *__wrap_realloc(void *p, size_t n) { if (fail_alloc_armed) { fail_alloc_armed = 0; errno = ENOMEM; return NULL; } return __real_realloc(p, n); }
 static long n_beyond;
 static long n_index_ok, n_range_err, n_grow, n_autogrow, n_newbins, n_addr_checks;
 
@@ -80,6 +86,13 @@ static void seq_case(long kase)
 		int idx = pick_idx(&r, cur);
 		void *p = (void *)0x1;
 		vp_desc("es=%zu init=%zu ag=%zu op=%d index(%d) cur=%zu", es, init, ag, op, idx, cur);
+		/* now and then the allocation that this call may need fails: the call reports it, and the array is as it was (a
+		 * repeat of the call succeeds, everything handed out before stays where it is: the later checks see to that) */
+		if (vp_chance(&r, 1, 12) && idx >= 0 && idx < MAXI && ((size_t)idx < cur || ag)) {
+			void *pf = (void *)0x1; fail_alloc_armed = 1; int rf = qb_array_index(a, idx, &pf); int fired = !fail_alloc_armed; fail_alloc_armed = 0;
+			if (fired) { n_enomem++; if (rf == 0) vp_violation("array:index-succeeds-although-allocation-failed", "index(%d) returned 0", idx); }
+			else if (rf == 0 && (size_t)idx >= cur) { cur = (size_t)idx + 1; }   /* no allocation was needed and the call auto-grew the array */
+		}
 		int rc = qb_array_index(a, idx, &p);
 		if (tn < sizeof tr - 24) tn += (size_t)snprintf(tr + tn, 24, "i%d:%d ", idx, rc);
 		if (idx < 0 || idx >= MAXI) {
@@ -227,7 +240,7 @@ int main(int argc, char **argv)
 	int mt = strcmp(vp_arg("--mode", "seq"), "mt") == 0;
 	for (long k = vp.case_from; k < vp.case_to; k++) { vp_begin_case(k); if (mt) mt_case(k); else seq_case(k); }
 	vp_count("index_ok", n_index_ok); vp_count("range_errors_seen", n_range_err); vp_count("grow_calls", n_grow);
-	vp_count("mt_indexes_beyond_the_maximum_refused", n_beyond); vp_count("autogrows", n_autogrow); vp_count("address_stability_checks", n_addr_checks);
+	vp_count("index_calls_with_a_failing_allocation", n_enomem); vp_count("mt_indexes_beyond_the_maximum_refused", n_beyond); vp_count("autogrows", n_autogrow); vp_count("address_stability_checks", n_addr_checks);
 	vp_finish();
 	return 0;
 }
